@@ -101,6 +101,12 @@ Proof.
 Qed.
 
 (* ---------- host ---------- *)
+Lemma dec_host_bare : forall c r, c <> 91 -> dec_host (@Some str (c :: r)) = @Some str (c :: r).
+Proof.
+  intros c r Hne. cbn [dec_host]. destruct c as [|pc]; [reflexivity|].
+  repeat (destruct pc as [pc|pc|]; try reflexivity); contradiction Hne; reflexivity.
+Qed.
+
 Lemma split_host_ok : forall h p R, host_lit_ok h = true -> opt_all port_ch p = true ->
   starts_in [47; 63] R ->
   split_host (opt_id h ++ opt_pre 58 p ++ R) = (dec_host h, opt_pre 58 p ++ R).
@@ -142,12 +148,7 @@ Proof.
       apply andb_true_iff; split; [reflexivity|].
       apply (forallb_impl port_ch); [|exact Hp]. intros x Hx. unfold port_ch, nb in *. lia.
   - (* bare literal *)
-    assert (Hd : dec_host (@Some str (c :: r)) = @Some str (c :: r)).
-    { cbn [dec_host]. destruct c as [|pc]; [reflexivity|]. 
-      destruct (N.eqb_spec (N.pos pc) 91) as [E|_]; [contradiction|].
-      (* the pattern 91 :: r does not match *)
-      repeat (destruct pc as [pc|pc|]; try reflexivity); contradiction Hne; reflexivity. }
-    rewrite Hd. unfold split_host.
+    rewrite (dec_host_bare c r Hne). unfold split_host.
     assert (Hsp : span (fun c => negb (c =? 47) && negb (c =? 58) && negb (c =? 63)) ((c :: r) ++ T) = (c :: r, T)).
     { apply span_here; [|exact Hipv4stop].
       assert (H58 : forallb (nb 58) (c :: r) = true).
